@@ -82,6 +82,49 @@ def analyse(tm):
     return recs
 
 
+def protection_tightness(ck, rule, tm, g=None):
+    """The protection change that precedes an entry write (and the destructor's restoring write) reaches no further than the pages the
+    written bytes lie in: page_up(start + size) <= page_up(dst + len) and start >= page_down(dst). A wider request changes the
+    protection of a page the injector has no business with - it is refused when that page is not mapped (the installation panics after
+    the trampoline was mapped, the destructor panics before it is released), or it silently makes a foreign data page executable."""
+    n = 0
+    todo = []
+    for r in analyse(tm):
+        if r.role == "entry" and r.variant.status == "returned":
+            todo.append((short(r.root), r.variant, r.ev, r.dst, r.ev.extra["count"]))
+    if g is not None and g.drop_fn:
+        for v in tm.variants(g.drop_fn):
+            for ev in code_writes(v):
+                todo.append(("guard destructor", v, ev, ev.extra["dst"], ev.extra["count"]))
+    seen = set()
+    for label, v, ev, dst, nbytes in todo:
+        prot = ev_before(v, ev, lambda e: e.kind == "ffi" and e.name in PROTECT_FFI and e.name != "mach2::vm::mach_vm_protect")
+        if prot is None:
+            continue
+        start, size = prot.args[0], prot.args[1]
+        P = bounds.find_page(start.e) or bounds.find_page(size.e) or leaf("page_size", 64)
+        w = tm.ptr_bits
+        pm1 = binop("sub", P, const(1, w), w)
+        up = lambda x: binop("and", binop("add", x, pm1, w), not_(pm1), w)
+        cov_end = up(binop("add", start.e, size.e, w))
+        wr_end_up = up(binop("add", dst.e, nbytes.e, w))
+        ok_hi, why_hi = bounds.prove_ge(wr_end_up, cov_end, w, P)
+        ok_lo, why_lo = bounds.prove_ge(start.e, binop("and", dst.e, not_(pm1), w), w, P)
+        key = (label, fmt(start.e, 6), fmt(size.e, 6))
+        if key in seen:
+            continue
+        seen.add(key)
+        n += 1
+        ck.ob(rule, "%s/%s/no-wider-than-the-pages-written" % (tm.os, short(prot.name)), tm.target, ok_hi and ok_lo,
+              "%s: protection change %s(start=%s, size=%s) before the write of %s byte(s) at %s: page_up(start+size) <= page_up(dst+len) %s (%s); "
+              "start >= page_down(dst) %s (%s)%s" % (
+                  label, short(prot.name), fmt(start.e, 4), fmt(size.e, 3), fmt(nbytes.e), fmt(dst.e, 3),
+                  "proved" if ok_hi else "NOT provable", why_hi, "proved" if ok_lo else "NOT provable", why_lo,
+                  "" if ok_hi else " - counter-example class: the written bytes end exactly on a page boundary and the request still takes in the next page"),
+              where(prot))
+    return n
+
+
 def missing_entry_writes(ck, rule, tm, label):
     """Every returning path of an install root writes the function's entry (called after analyse(tm)); shared by the reach rule and by
     the per-architecture checks, which decide destinations from the writes and would otherwise not see a path that writes nothing."""
